@@ -199,7 +199,7 @@ def check_init(ctx):
     check_ranges(ctx, ev)
     # -lx last: the location list handed to the intersection
     calls = [c for c in trace.calls(ev, "self._get_common_indices")]
-    ctx.need(len(calls) >= 4, "%s: expected 3 + 1 calls of _get_common_indices" % site)
+    ctx.need(len(calls) >= 3, "%s: expected one _get_common_indices call per dimension" % site)
     by_axis = {}
     for c in calls:
         ax = c["args"][1].key() if len(c["args"]) > 1 else "?"
